@@ -26,7 +26,8 @@ Definition EInvalidBarType : N := 100.
 (* One BAR register: `s_mask` are the hard-wired bits (a write cannot change them), `s_val` the
    current content.  `s_kind` is a descriptive tag used only by the specification (`slot_truth`):
    0 unimplemented, 1 I/O, 2 memory 32-bit, 3 memory below 1 MiB, 4 memory 64-bit (low half),
-   5 upper half of a 64-bit BAR.  The write semantics does not look at it. *)
+   5 upper half of a 64-bit BAR, 6 memory BAR with the reserved type encoding (nothing is required of the
+   reported value, only of the restored registers).  The write semantics does not look at it. *)
 Record slot := mkSlot { s_kind : N; s_mask : N; s_val : N }.
 (* command: all 16 bits read/write.  status: upper half of the word at 0x04, its RW1C bits are
    cleared by writing 1, everything else read-only.  f_regs: backing store (index = offset / 4) of
